@@ -240,13 +240,13 @@ def c02_this(q: str, shape: int) -> bool:
 
 # ---------------------------------------------------------------- every type tree of a small algebra (small-scope exhaustive)
 L_NAMES = ["T", "Key", "This"]
-L_NS = [(), ("T",), ("This",), ("ns",)]
+L_NS = [(), ("T",), ("This",), ("ns",), ("T", "Traits"), ("This", "Inner")]
 L_QUAL = [(False, ""), (True, "&"), (False, "*")]
 R_NAMES = ["vec", "Rebind"]
 R_NS = [("std",), ("T",), ("This",)]
-NLEAF = len(L_NAMES) * len(L_NS) * len(L_QUAL)        # 36
+NLEAF = len(L_NAMES) * len(L_NS) * len(L_QUAL)        # 54
 NROOT = len(R_NAMES) * len(R_NS) * len(L_QUAL)        # 18
-B_REPS = [0, 4, 13, 19, 26, 35]                       # second-argument leaves (one per name x namespace family)
+B_REPS = [0, 19, 21, 26, 31, 33, 36, 27]              # second-argument leaves: T, const Key&, T::Key, This::Key*, const T::Traits::Key&, This::Inner::Key, This, ns::Key
 
 
 def leaf(code):
@@ -296,7 +296,7 @@ def _check_tree(ty):
 
 def c02_all_trees(kind: int, r: int, a: int, b: int) -> bool:
     """
-    Every type expression of a small algebra — leaves {T, Key, This} x scopes {none, T::, This::, ns::} x {plain, const&, *};
+    Every type expression of a small algebra — leaves {T, Key, This} x scopes {none, T::, This::, ns::, T::Traits::, This::Inner::} x {plain, const&, *};
     templated roots {std::vec, T::Rebind, This::Rebind, ...} x qualifiers with one or two such leaves as arguments —
     through `instantiate_type`, with and without the instantiated class handed over (the static-method path):
     equals the reference substitution; the declared node is left unmodified.
